@@ -43,6 +43,32 @@ func runC06(rowsFile string, reserved map[string]map[string]bool, b *hc.Builder)
 	sc := bufio.NewScanner(f)
 	sc.Buffer(make([]byte, 1<<20), 1<<27)
 	stats := map[string]int{}
+	// boundary: a query string without any parameter still lacks every required parameter
+	for _, q := range []string{"", "&", "&&", "other=1", "p=1"} {
+		qr, err := restlicodec.ParseQueryParams(q)
+		if err != nil {
+			violation("C06/query/empty/parse", fmt.Sprintf("query %q: %v", q, err), nil)
+			continue
+		}
+		err = qr.ReadRecord(requiredFields("p", "zz"), func(r restlicodec.Reader, field string) error { return r.Skip() })
+		want := "p,zz"
+		if q == "p=1" {
+			want = "zz"
+		}
+		var mf *restlicodec.MissingRequiredFieldsError
+		got := ""
+		if errors.As(err, &mf) {
+			g := append([]string{}, mf.Fields...)
+			sort.Strings(g)
+			got = strings.Join(g, ",")
+		} else if err != nil {
+			got = "error: " + err.Error()
+		}
+		stats["decodings"]++
+		if got != want {
+			violation("C06/query/no-parameters/wrong-set", fmt.Sprintf("query %q read as a record requiring p and zz: missing reported as [%s], specified [%s]", q, got, want), map[string]any{"query": q})
+		}
+	}
 	for sc.Scan() {
 		var row c06Row
 		if err := json.Unmarshal(sc.Bytes(), &row); err != nil {
@@ -133,6 +159,68 @@ func runC06(rowsFile string, reserved map[string]map[string]bool, b *hc.Builder)
 				readings = append(readings, reading{name: fl.name + "/unknown-composite-fields", prefix: prefix, run: func() (reflect.Value, error) {
 					return decode(fl, refRor2(b, row.Ror2U, reserved[fl.ror2], 0, atomText), typ)
 				}})
+			}
+		}
+		// readers built with an exclusion spec: a missing required field that is EXCLUDED (a read-only id on create) is not
+		// reported -- and every other missing field still is, whatever order the accounting visits them in
+		{
+			var tops []string
+			for _, p := range row.Missing {
+				if len(p) == 1 && p[0].Idx == 0 {
+					tops = append(tops, string(b.C.Bytes(p[0].Key)))
+				}
+			}
+			if len(tops) >= 1 && len(row.Missing) >= 2 {
+				excl := tops[0]
+				var rest []string
+				for _, w := range want {
+					if w != excl && !strings.HasPrefix(w, excl+".") && !strings.HasPrefix(w, excl+"[") {
+						rest = append(rest, w)
+					}
+				}
+				spec := restlicodec.NewPathSpec(excl)
+				doc := refJSON(b, row.Json, 0)
+				rdoc := refRor2(b, row.Ror2, reserved["header"], 0, atomText)
+				for rep := 0; rep < 3; rep++ {
+					for _, rf := range []struct {
+						name string
+						mk   func() (restlicodec.Reader, error)
+					}{
+						{"json", func() (restlicodec.Reader, error) {
+							return restlicodec.NewJsonReaderWithExcludedFields([]byte(doc), spec, 0)
+						}},
+						{"ror2", func() (restlicodec.Reader, error) { return restlicodec.NewRor2ReaderWithExcludedFields(rdoc, spec, 0) }},
+						{"untyped", func() (restlicodec.Reader, error) {
+							return restlicodec.NewInterfaceReaderWithExcludedFields(b.PlainOf(row.Json), spec, 0), nil
+						}},
+					} {
+						r, err := rf.mk()
+						if err != nil {
+							continue
+						}
+						back := reflect.New(typ)
+						err, pan := safely(func() error { return back.Interface().(restlicodec.Unmarshaler).UnmarshalRestLi(r) })
+						stats["decodings"]++
+						var mf *restlicodec.MissingRequiredFieldsError
+						var got []string
+						if pan != "" {
+							violation("C06/"+rf.name+"/with-excluded-field/panic", pan, cs)
+							continue
+						}
+						if err != nil {
+							if !errors.As(err, &mf) {
+								violation("C06/"+rf.name+"/with-excluded-field/other-error", err.Error(), cs)
+								continue
+							}
+							got = append(got, mf.Fields...)
+							sort.Strings(got)
+						}
+						if strings.Join(got, ",") != strings.Join(rest, ",") {
+							violation(fmt.Sprintf("C06/%s/with-excluded-field/wrong-set/%s", rf.name, row.Schema),
+								fmt.Sprintf("required field %q is excluded and absent; the other missing fields reported as %v, specified %v", excl, got, rest), cs)
+						}
+					}
+				}
 			}
 		}
 		// query parameters: the document is the value of parameter p; a second required parameter (zz) is missing and a
